@@ -23,6 +23,8 @@ func init() {
 }
 
 func runC01(c *Ctx) {
+	defer ruleErrorsNotDropped(c, "C01.26", "storage.(*BTree).insert", "storage.(*RelationService).Insert", "storage.(*RelationService).MarkDeleted", "storage.(*RelationService).FlushWALBatch")
+	defer ruleLengthIsByteLength(c, "C01.25")
 	c01Tombstone(c, "C01.1")
 	c01ScansTestTombstone(c, "C01.2")
 	c01RowIDs(c, "C01.3")
